@@ -274,8 +274,8 @@ func accepted(o *sup.Outcome) bool {
 func checkC01() int {
 	c := NewCheck("C01")
 	pool := newPool()
-	nProg := c.pick(150, 2500)
-	nCfg := c.pick(6, 18)
+	nProg := c.pick(450, 2500)
+	nCfg := c.pick(9, 18)
 	cases := genCases(c, nProg, 1, func(i int) *gen.Opt {
 		if i%3 != 0 {
 			return nil
@@ -355,7 +355,7 @@ func checkC01() int {
 func checkC02() int {
 	c := NewCheck("C02")
 	pool := newPool()
-	nProg := c.pick(150, 2500)
+	nProg := c.pick(450, 2500)
 	nCfg := c.pick(6, 14)
 	cases := genCases(c, nProg, 2, func(i int) *gen.Opt {
 		if i%2 == 0 {
@@ -452,8 +452,8 @@ func checkC02() int {
 func checkC03() int {
 	c := NewCheck("C03")
 	pool := newPool()
-	nProg := c.pick(120, 2000)
-	nCfg := c.pick(8, 16)
+	nProg := c.pick(350, 2000)
+	nCfg := c.pick(10, 16)
 	cases := genCases(c, nProg, 3, nil)
 	cases = append(cases, closedCorpus(pool)...)
 	c.Rule = "every program is run under nCfg seeded configurations over {async, sync} x monitor x GOMAXPROCS{1,2,4,16} x 8 perturbation profiles, plus np when it has no split and no multi-name prc; oracle: all runs of one program agree on (printed-label multiset, clean completion); stdout is cross-checked against the print hook and the monitor's PRINT log; non-trivial = distinct program whose runs showed >= 2 distinct interleaving fingerprints and printed >= 1 label"
@@ -556,7 +556,7 @@ func checkC03() int {
 func checkC04() int {
 	c := NewCheck("C04")
 	pool := newPool()
-	nProg := c.pick(150, 2500)
+	nProg := c.pick(450, 2500)
 	nCfg := c.pick(6, 12)
 	cases := genCases(c, nProg, 4, func(i int) *gen.Opt {
 		if i%3 != 0 {
